@@ -356,6 +356,8 @@ def _dict(f, p, v, env):
             unknown = True
             continue
         try:
+            if nk in out:
+                unknown = True  # two keys with one normal form: the winner depends on the order of arrival
             out[nk] = nv
         except TypeError:
             return UNKNOWN, None
@@ -436,7 +438,22 @@ def to_python(f, v, env=None):
     return True, v
 
 
+class _NoneOrEmpty:
+    """Normal form of an unset typed list/dict that went through the on-disk route: it may come back empty."""
+
+    def __repr__(self):
+        return "<None or empty>"
+
+
+NoneOrEmpty = _NoneOrEmpty()
+
+
 def accepts_disk(f, v, env=None):
+    if v is None and not f.get("params", {}).get("required"):
+        if (f["family"] == "list" and f.get("item") is not None and not (
+                f["item"].get("kind") == "field" and f["item"]["family"] == "any")) or (
+                f["family"] == "dict" and (f.get("keyf") or f.get("valf"))):
+            return True, NoneOrEmpty
     ok, pv = to_python(f, v, env)
     if ok is not True:
         return ok, None
@@ -625,7 +642,7 @@ def validate_values(schema_node, values):
             continue
         if ch.get("params", {}).get("required") and empty_required(ch, v):
             return False
-        if ch["family"] == "list" and ch.get("item") and ch["item"]["kind"] in ("schema", "ctype") and v:
+        if ch["family"] == "list" and ch.get("item") and ch["item"]["kind"] in ("schema", "ctype") and isinstance(v, (list, tuple)):
             for it in v:
                 if isinstance(it, dict):
                     ok = validate_values(ch["item"], it)
@@ -658,6 +675,10 @@ def match(norm, actual, path=""):
 
     if norm is Unknown:
         return None
+    if norm is NoneOrEmpty:
+        if actual is None or (isinstance(actual, (list, dict)) and len(actual) == 0):
+            return None
+        return "%s: expected unset or empty, found %r" % (path or "value", actual)
     if isinstance(norm, Hashed):
         if isinstance(actual, Digest) and digest_ok(actual, norm.secret, None):
             return None
